@@ -1,7 +1,7 @@
 #!/bin/bash
-# verify_refactors.sh <PID>...: in /tmp/wt3/<PID> apply the four refactorings together, run the baseline suite, compare with BASELINE.json, undo
+# verify_refactors.sh <PID>...: in ${WTROOT:-/tmp/wt3}/<PID> apply the four refactorings together, run the baseline suite, compare with BASELINE.json, undo
 for P in "$@"; do
-  ( W=/tmp/wt3/$P; cd $W && git checkout -q -- src && ok=1
+  ( W=${WTROOT:-/tmp/wt3}/$P; cd $W && git checkout -q -- src && ok=1
     for k in 1 2 3 4; do [ -f REFACTOR/$k/patch.diff ] && { git apply REFACTOR/$k/patch.diff || { echo "$P/$k does not apply with the others"; ok=0; }; }; done
     PYTHONPATH=$W/src timeout 1500 /venv/bin/python -m pytest -q -p no:cacheprovider --timeout=900 --continue-on-collection-errors --junitxml=$W/REFACTOR/junit.xml tests > $W/REFACTOR/pytest.log 2>&1
     python3-vt /verif/tools/check_baseline.py $W/REFACTOR/junit.xml > $W/REFACTOR/baseline.txt 2>&1; B=$?
